@@ -572,3 +572,140 @@ Section StableInv.
   Lemma SI_initial s : SI (mk SchemeStart (-1) false [] false false false (empty_url s)).
   Proof using. split; [intros E; discriminate E|]. split; reflexivity. Qed.
 End StableInv.
+
+(* ------------------------------------------------------------------------------------------ *)
+(* the cleaned input does not end in a space                                                    *)
+(* ------------------------------------------------------------------------------------------ *)
+Import Proofs.Utf8Proofs.
+
+Lemma dec1_bad b0 rest b rest' : dec1 b0 rest = (Bad b, rest') -> rest' = rest.
+Proof.
+  intros H. unfold dec1 in H. cbv zeta in H.
+  dec1_split H; inversion H; subst; reflexivity.
+Qed.
+
+Lemma decode_nil_inv s : decode s = [] -> s = [].
+Proof.
+  destruct s as [|b0 rest]; [reflexivity|]. destruct (dec1 b0 rest) as [r rest'] eqn:E.
+  rewrite (decode_cons _ _ _ _ E). discriminate.
+Qed.
+
+(* the last code point, when it is ASCII, is the last byte *)
+Lemma decode_last_ascii s : forall l r, decode s = l ++ [r] -> rv r < 128 -> exists s', s = s' ++ [rv r].
+Proof.
+  apply (decode_ind (fun s d => forall l r, d = l ++ [r] -> rv r < 128 -> exists s', s = s' ++ [rv r])).
+  - intros l r H. destruct l; discriminate H.
+  - intros b0 rest r0 rest' E IH l r H Hr.
+    assert (Hpre : exists pre, b0 :: rest = pre ++ rest' /\ (decode rest' = [] -> r0 = r -> pre = [rv r])).
+    { destruct r0 as [c0|b].
+      - exists (utf8_enc c0). split; [apply (dec1_good _ _ _ _ E)|]. intros _ <-. cbn [rv] in *.
+        apply utf8_enc_ascii. exact Hr.
+      - exists [b0]. split; [rewrite (dec1_bad _ _ _ _ E); reflexivity|]. intros _ <-. cbn [rv] in Hr.
+        unfold rune_error in Hr. lia. }
+    destruct Hpre as [pre [Hp1 Hp2]].
+    destruct (decode rest') as [|y t] eqn:Ed.
+    + destruct l as [|x l']; [|destruct l'; discriminate H]. cbn [app] in H. injection H as H.
+      apply decode_nil_inv in Ed. subst rest'. exists []. rewrite Hp1, (Hp2 eq_refl H), app_nil_r. reflexivity.
+    + destruct l as [|x l']; [discriminate H|]. cbn [app] in H. injection H as _ H.
+      destruct (IH l' r H Hr) as [s'' Es]. exists (pre ++ s''). rewrite Hp1, Es, app_assoc. reflexivity.
+Qed.
+
+Lemma trim_left_set_head l y r : trim_left_set l = y :: r -> in_c0_or_space y = false.
+Proof.
+  induction l as [|b l IH]; [discriminate|]. cbn [trim_left_set].
+  destruct (in_c0_or_space b) eqn:E; [exact IH|]. intros H. injection H as <- _. exact E.
+Qed.
+
+Lemma trim_last x s' y : fst (trim_c0space x) = s' ++ [y] -> in_c0_or_space y = false.
+Proof.
+  unfold trim_c0space. cbn [fst]. intros H.
+  apply (f_equal (@rev N)) in H. rewrite rev_involutive, rev_app_distr in H. cbn [rev app] in H.
+  apply (trim_left_set_head _ _ _ H).
+Qed.
+
+Lemma tabnl_c0 y : isTabOrNewline y = true -> in_c0_or_space y = true.
+Proof.
+  unfold isTabOrNewline, bs_test, bs_ASCIITabOrNewline, mem. cbn [existsb]. intros H.
+  assert (E : y = 9 \/ y = 10 \/ y = 13) by lia. destruct E as [->|[->| ->]]; reflexivity.
+Qed.
+
+Lemma filter_snoc_keep {A} (f : A -> bool) l y : f y = true -> filter f (l ++ [y]) = filter f l ++ [y].
+Proof. intros H. rewrite filter_app. cbn [filter]. rewrite H. reflexivity. Qed.
+
+Lemma snoc_or_nil {A} (l : list A) : l = [] \/ exists l' y, l = l' ++ [y].
+Proof.
+  destruct l as [|a l]; [left; reflexivity|right].
+  exists (removelast (a :: l)), (last (a :: l) a). apply app_removelast_last. discriminate.
+Qed.
+
+Lemma clean_sv_no_trailing_space a x s' : clean_sv a x <> s' ++ [32].
+Proof.
+  unfold clean_sv. set (t := fst (trim_c0space x)). intros H.
+  assert (Hf : forall l, filter (fun b => negb (isTabOrNewline b)) l = s' ++ [32] ->
+                 forall l' y, l = l' ++ [y] -> isTabOrNewline y = false -> y = 32).
+  { intros l Hl l' y -> Hy. rewrite filter_snoc_keep in Hl by (rewrite Hy; reflexivity).
+    apply app_inj_tail in Hl. apply Hl. }
+  destruct (snoc_or_nil t) as [Et|[t' [y Et]]].
+  - (* the trimmed input is empty *)
+    rewrite Et in H. unfold remove_tabnl_sv, remove_tabnl in H. cbn in H. destruct s'; discriminate H.
+  - pose proof (trim_last x t' y Et) as Hy.
+    assert (Hyt : isTabOrNewline y = false).
+    { destruct (isTabOrNewline y) eqn:E; [|reflexivity]. rewrite (tabnl_c0 y E) in Hy. discriminate. }
+    unfold remove_tabnl_sv in H. destruct (remove_tabnl t) as [i ch] eqn:Er.
+    assert (Ei : i = filter (fun b => negb (isTabOrNewline b)) t) by (unfold remove_tabnl in Er; injection Er as <- _; reflexivity).
+    destruct (ch && negb a && negb (valid_utf8 t)); cbn [fst] in H.
+    + (* the scalar-value reading *)
+      unfold remove_tabnl in H. cbn [fst] in H. unfold to_valid, encode_runes, runes in H.
+      destruct (snoc_or_nil (decode t)) as [Ed|[l [r Ed]]].
+      * apply decode_nil_inv in Ed. rewrite Ed in Et. destruct t'; discriminate Et.
+      * rewrite Ed, map_app, flat_map_app in H. cbn [map flat_map] in H. rewrite app_nil_r in H.
+        destruct (snoc_or_nil (utf8_enc (rv r))) as [En|[e' [z Ez]]]; [exact (utf8_enc_nonempty _ En)|].
+        rewrite Ez, app_assoc in H.
+        destruct (rv r <? 128) eqn:Er128.
+        -- rewrite utf8_enc_ascii in Ez by lia. destruct e' as [|? [|? ?]]; try discriminate Ez. injection Ez as Ez.
+           destruct (decode_last_ascii t l r Ed ltac:(lia)) as [t'' Et'']. rewrite Et in Et''.
+           apply app_inj_tail in Et''. destruct Et'' as [_ Ey]. subst z. rewrite <- Ey in H.
+           pose proof (Hf _ H _ _ eq_refl Hyt) as E32. rewrite E32 in Hy. vm_compute in Hy. discriminate Hy.
+        -- pose proof (utf8_enc_high (rv r) ltac:(lia)) as Fh. rewrite Ez in Fh.
+           apply Forall_app in Fh. destruct Fh as [_ Fz]. inversion Fz as [|? ? Hz _]; subst.
+           assert (Hzt : isTabOrNewline z = false).
+           { unfold isTabOrNewline, bs_test, bs_ASCIITabOrNewline, mem. cbn [existsb]. lia. }
+           pose proof (Hf _ H _ _ eq_refl Hzt) as E32. lia.
+    + rewrite Ei in H. pose proof (Hf _ H _ _ Et Hyt) as E32. rewrite E32 in Hy. vm_compute in Hy. discriminate Hy.
+Qed.
+
+Lemma nth_opt_last {A} (l : list A) x : nth_opt (l ++ [x]) (length l) = Some x.
+Proof. induction l as [|y l IH]; [reflexivity|]. cbn [app length nth_opt]. exact IH. Qed.
+
+Lemma clean_input_last a x q :
+  (q + 1 = n_inp (decode (clean_sv a x)))%Z -> cp_at (decode (clean_sv a x)) q <> 32.
+Proof.
+  intros Hq Hc. set (i := clean_sv a x) in *.
+  destruct (snoc_or_nil (decode i)) as [Ed|[l [r Ed]]].
+  - rewrite Ed in Hq. unfold n_inp, len in Hq. cbn [length] in Hq. unfold cp_at in Hc.
+    replace (q <? 0)%Z with true in Hc by lia. discriminate Hc.
+  - unfold n_inp, len in Hq. rewrite Ed, app_length in Hq. cbn [length] in Hq.
+    unfold cp_at in Hc. replace (q <? 0)%Z with false in Hc by lia. rewrite Ed in Hc.
+    replace (Z.to_nat q) with (length l) in Hc by lia. rewrite nth_opt_last in Hc.
+    destruct (decode_last_ascii i l r Ed ltac:(lia)) as [s' Es]. rewrite Hc in Es.
+    exact (clean_sv_no_trailing_space a x s' Es).
+Qed.
+
+(* ------------------------------------------------------------------------------------------ *)
+(* every parse result is stable                                                                 *)
+(* ------------------------------------------------------------------------------------------ *)
+Theorem Parse_stable idna_raw c x u :
+  cfg_rt c = true -> Parse idna_raw c x = PUrl u -> stable_b c u = true.
+Proof.
+  intros Hc H. pose proof (cfg_rt_sound c Hc) as R. unfold Parse in H.
+  rewrite (BasicParser_factors idna_raw c (R_rep c R) (R_fail c R)) in H. unfold parse_clean in H.
+  cbn [option_map] in H.
+  destruct (run idna_raw c (decode (clean_sv (c_acceptInvalid c) x)) None None
+              (fuel_of (length (decode (clean_sv (c_acceptInvalid c) x))))
+              (mk SchemeStart (-1) false [] false false false (empty_url (clean_sv (c_acceptInvalid c) x))))
+    as [u'| | | |] eqn:E; try discriminate H.
+  cbn [to_pres] in H. injection H as <-.
+  apply (run_stable idna_raw c R _ (clean_input_last (c_acceptInvalid c) x) _ _ _ (SI_initial c _ _) eq_refl E).
+Qed.
+
+Print Assumptions Parse_stable.
